@@ -11,7 +11,7 @@ C17 driver, DER-based decoders (case kinds `der`, `dersig`, `cd`, `x509`, `csr`;
   were encoded (computed here from the op's fields, not from the model).
 -/
 namespace Driver.C17X509
-open Codec Codec.Der Driver.C17U
+open Codec Codec.DerRd Driver.C17U
 
 /-! ### generic oracle helpers -/
 
